@@ -1293,7 +1293,7 @@ def canon_model_out(o, req):
         return o
     if req['lvl'] == 'c':
         return {'ok': sorted(set(x.lower() if isinstance(x, str) else x[0].lower() for x in o['ok']))}
-    return {'ok': sorted(set(map(str, (canon_p(p) for p in o['ok']))))}
+    return {'ok': sorted(map(str, (canon_p(p) for p in o['ok'])))}       # with multiplicity (model: dedupPaths)
 
 
 def canon_real_out(o, req):
@@ -1301,7 +1301,7 @@ def canon_real_out(o, req):
         return o
     if req['lvl'] == 'c':
         return {'ok': sorted(set(x[0].lower() for x in o['ok']))}
-    return {'ok': sorted(set(map(str, (canon_p(p) for p in o['ok']))))}
+    return {'ok': sorted(map(str, (canon_p(p) for p in o['ok'])))}
 
 
 def _work(spec):
@@ -1373,6 +1373,7 @@ def run(run):
         for sig, case, obs in r['viol']:
             run.violate(sig, case, obs)
     create_k(run)
+    write_k(run)
 
 
 def gen_create_spec(rng):
@@ -1499,6 +1500,204 @@ def create_k(run):
             run.violate(sig, case, obs)
 
 
+# --------------------------------------------------------------------------- K for the write path (create/modify/delete)
+
+def gen_write_spec(rng):
+    """nodes in 2-3 namespaces + a sequence of CreateInstance / ModifyInstance / DeleteInstance requests for
+    association instances (half of the classes id-keyed: every end re-pointable), requests sent through any
+    namespace that holds or does not hold a copy"""
+    assocs = gen_schema(rng, idkeyed=0.6)
+    nss = NSS[:rng.choice([2, 3, 3])]
+    nodes = []
+    for i in range(rng.choice([3, 5, 7, 9])):
+        nd = [rng.choice(nss), rng.choice([n for n, _ in NODE_CLASSES]), 'n%d' % rng.randrange(6)]
+        if nd not in nodes:
+            nodes.append(nd)
+    ops, created = [], []          # created: [cls, {role: node idx|None}]
+    for _ in range(rng.choice([3, 6, 10, 14])):
+        r = rng.random()
+        if r < 0.45 or not created:
+            a = rng.choice(assocs)
+            refs = assoc_refs(assocs, a[0])
+            ends = {}
+            for role, rc, iskey in refs:
+                if not iskey and rng.random() < 0.15:
+                    ends[role] = None
+                else:
+                    ends[role] = rng.randrange(len(nodes))
+            ns = rng.choice(nss) if rng.random() < 0.85 else rng.choice(
+                [nodes[i][0] for i in ends.values() if i is not None] or nss)
+            iid = 'w%d' % (len(created) if rng.random() < 0.85 else rng.randrange(len(created) + 1))
+            ops.append(['create', ns, a[0], ends, iid])
+            created.append([a[0], dict(ends), iid])
+        elif r < 0.80:
+            k = rng.randrange(len(created))
+            cls, ends, iid = created[k]
+            refs = assoc_refs(assocs, cls)
+            cand = [(role, rc) for role, rc, iskey in refs if not iskey]     # key changes: C10's subject
+            if not cand:
+                continue
+            rng.shuffle(cand)
+            change = {}
+            for role, rc in cand[:rng.choice([1, 1, 2])]:
+                q = rng.random()
+                if q < 0.10:
+                    change[role] = 'missing'
+                else:
+                    change[role] = rng.randrange(len(nodes))
+            via = rng.choice(nss)
+            ops.append(['modify', via, k, change, rng.choice(['pl', 'partial', 'full'])])
+            if all(isinstance(v, int) for v in change.values()):
+                ends.update(change)                          # what it should be if accepted (bookkeeping only)
+        else:
+            k = rng.randrange(len(created))
+            ops.append(['delete', rng.choice(nss), k])
+    return {'assocs': assocs, 'nss': nss, 'nodes': nodes, 'ops': ops}
+
+
+def store_contents(conn, keys):
+    """per namespace: sorted list of (path normal form, class, [(role, end normal form|None)…])"""
+    out = {}
+    for ns in conn.namespaces:
+        rows = []
+        for i in conn.cimrepository.get_instance_store(ns).iter_values(copy=False):
+            refs = sorted((p.name.lower(), str(canon_p(pj(p.value, keys))) if p.value is not None else None)
+                          for p in i.properties.values() if p.type == 'reference')
+            rows.append([str(canon_p(pj(i.path, keys))), i.classname.lower(), [list(r) for r in refs]])
+        out[ns.lower()] = sorted(rows, key=str)
+    return out
+
+
+def model_contents(repo):
+    out = {}
+    for r in repo:
+        rows = []
+        for i in r.get('insts', []):
+            refs = sorted((n.lower(), str(canon_p(v)) if v is not None else None) for n, v in i['refs'])
+            rows.append([str(canon_p(i['path'])), i['cls'].lower(), [list(x) for x in refs]])
+        out[r['name'].lower()] = sorted(rows, key=str)
+    return out
+
+
+def run_write(spec):
+    """-> (model line, real outcomes, real final store contents, violations)"""
+    import pywbem
+    import mockutil
+    conn = mockutil.new_conn(schema_mof(spec['assocs']), spec['nss'])
+    for nd in spec['nodes']:
+        conn.CreateInstance(pywbem.CIMInstance(nd[1], properties={'id': nd[2]}), namespace=nd[0])
+    keys = Keys()
+    line = {'host': conn.host, 'repo': dump_repo(conn, keys), 'reqs': []}
+    outs, viol = [], []
+    paths = []                       # per created index: the path (without namespace) the instance has / would have
+
+    def ref_val(tgt):
+        if tgt is None:
+            return None
+        if tgt == 'missing':
+            return pywbem.CIMInstanceName('C13_Node', keybindings={'id': 'missing'}, namespace=spec['nss'][0])
+        return node_path(spec['nodes'][tgt])
+
+    def mprops(props):
+        return [{'name': p.name, 'ref': p.type == 'reference', 'v': pj(p.value, keys) if p.type == 'reference' else None}
+                for p in props]
+    for op in spec['ops']:
+        try:
+            if op[0] == 'create':
+                _, ns, cls, ends, iid = op
+                refs = assoc_refs(spec['assocs'], cls)
+                props, keyb = [], {}
+                for role, rc, iskey in refs:
+                    val = ref_val(ends[role])
+                    props.append(pywbem.CIMProperty(role, val, type='reference', reference_class=rc))
+                    if iskey:
+                        keyb[role] = val
+                if id_keyed(refs):
+                    props.append(pywbem.CIMProperty('InstanceID', iid))
+                    keyb['InstanceID'] = iid
+                mpath = pywbem.CIMInstanceName(cls, keybindings=keyb)
+                paths.append(mpath)
+                line['reqs'].append({'op': 'create', 'ns': ns,
+                                     'inst': {'cls': cls, 'path': pj(mpath, keys), 'props': mprops(props)}})
+                conn.CreateInstance(pywbem.CIMInstance(cls, properties=props), namespace=ns)
+            elif op[0] == 'modify':
+                _, via, k, change, mode = op
+                cls = next(o for o in [o for o in spec['ops'] if o[0] == 'create'][k:k + 1])[2]
+                refs = assoc_refs(spec['assocs'], cls)
+                rcs = {role: rc for role, rc, _ in refs}
+                p = paths[k].copy()
+                p.namespace = via
+                newprops = [pywbem.CIMProperty(role, ref_val(t), type='reference', reference_class=rcs[role])
+                            for role, t in change.items()]
+                if mode == 'full':
+                    try:
+                        inst = conn.GetInstance(p)
+                        for np_ in newprops:
+                            inst.properties[np_.name] = np_
+                        inst.path = p
+                        chg = list(inst.properties.values())
+                    except pywbem.CIMError:
+                        inst = pywbem.CIMInstance(cls, properties=newprops, path=p)
+                        chg = newprops
+                    line['reqs'].append({'op': 'modify', 'ns': via, 'path': pj(paths[k], keys), 'chg': mprops(chg)})
+                    conn.ModifyInstance(inst)
+                else:
+                    inst = pywbem.CIMInstance(cls, properties=newprops, path=p)
+                    line['reqs'].append({'op': 'modify', 'ns': via, 'path': pj(paths[k], keys), 'chg': mprops(newprops)})
+                    if mode == 'pl':
+                        conn.ModifyInstance(inst, PropertyList=[np_.name for np_ in newprops])
+                    else:
+                        conn.ModifyInstance(inst)
+            else:
+                _, via, k = op
+                p = paths[k].copy()
+                p.namespace = via
+                line['reqs'].append({'op': 'delete', 'ns': via, 'path': pj(paths[k], keys)})
+                conn.DeleteInstance(p)
+            outs.append({'ok': None})
+        except Exception as e:  # noqa
+            outs.append(common.exc_json(e))
+    # oracle on the real outputs: traversal is symmetric across namespaces after the history
+    counts = {}
+    orc = Oracle(conn, {'write_spec': spec}, keys, lambda sig, case, obs: viol.append((sig, {'write_spec': spec}, obs)),
+                 lambda k, n=1: counts.__setitem__(k, counts.get(k, 0) + n), lambda r: real_call(conn, r, keys))
+    orc.loaded = False
+    seen = set()
+    for ns in conn.namespaces:
+        for a in conn.cimrepository.get_instance_store(ns).iter_values(copy=False):
+            for pr in a.properties.values():
+                if pr.type == 'reference' and pr.value is not None and has_ns(conn, pr.value.namespace):
+                    x = pr.value
+                    kx = canon_p(pj(x, keys))
+                    if kx in seen:
+                        continue
+                    seen.add(kx)
+                    rq = {'op': 'AN', 'lvl': 'i', 'ns': x.namespace, '_path': x, 'src': src_uri(x, x.namespace),
+                          'ac': None, 'rc': None, 'role': None, 'rrole': None}
+                    orc.check_symmetry(rq, real_call(conn, rq, keys), None)
+    return line, outs, store_contents(conn, keys), viol
+
+
+def write_k(run):
+    """K for the write path: CreateInstance / ModifyInstance / DeleteInstance of association instances"""
+    n = 300 if run.thorough else 80
+    wrng = random.Random(run.seed * 104729 + 13)
+    specs = [gen_write_spec(wrng) for _ in range(n)]
+    rows = [run_write(s) for s in specs]
+    answers = common.run_driver(PROP, [r[0] for r in rows])
+    for spec, (line, outs, final, viol), ans in zip(specs, rows, answers):
+        mo = ans.get('outs')
+        mp = model_contents(ans.get('repo', []))
+        run.case({'write': spec['ops'], 'nodes': spec['nodes']}, nontrivial=sum(1 for o in outs if 'ok' in o) >= 2)
+        for op, o in zip(spec['ops'], outs):
+            run.count('write:%s:%s' % (op[0], o.get('exc', 'ok') + str(o.get('code', ''))))
+        if mo != outs or mp != final:
+            run.disagree({'write_spec': spec}, {'outs': mo, 'repo': mp}, {'outs': outs, 'repo': final},
+                         'Create/Modify/DeleteInstance of association instances')
+        for sig, case, obs in viol:
+            run.violate(sig, case, obs)
+
+
 def search(run):
     """proof or K broke and the oracle saw nothing: widen the oracle-only search on the real code"""
     before = len(run.violations)
@@ -1518,6 +1717,14 @@ def search(run):
 
 def replay(payload):
     case = payload['case']
+    if 'write_spec' in case:
+        line, outs, final, viol = run_write(case['write_spec'])
+        known = common.load_known_all()
+        bad = [v[0] for v in viol if not any(common.matches(f, PROP, v[0]) for f in known)]
+        if bad:
+            return False, 'property C13 FAILS after this write history: ' + json.dumps(bad[:3]) + \
+                '\nreal outcomes: ' + json.dumps(outs)[:1000]
+        return True, 'property C13 holds after this write history; real outcomes: ' + json.dumps(outs)[:1000]
     if 'create_spec' in case:
         line, outs, final, viol = run_create(case['create_spec'])
         if viol:
